@@ -3,16 +3,32 @@
        seeds, threads, processes) is a runtime fact checked by a source lint (no map iteration) and by writing the
        same graphs in several processes.
    (b) normal form: at the level of event histories, writing, reading and writing again reproduces the text
-       character for character (C09).  That the traversal of the re-built graph emits the same history (the
-       equivariance of the walk under the renaming of C12) is decided on the implementation's outputs
-       (C14.written_text_is_fixed_point), not yet by a theorem. *)
+       character for character (C09); at the level of graphs, the traversal of the re-built graph emits exactly
+       the same history (equivariance of the walk under the renaming of C12: lock-step simulation of the two runs,
+       pool equivariant under injective renaming), so the whole cycle text -> read -> build -> walk -> write
+       reproduces the text. *)
 From Coq Require Import List NArith Bool.
-Require Import P.Spec.Events P.Spec.Normal P.Model.Base P.Model.Reader P.Model.Writer P.Proofs.BodyFacts P.Proofs.C09_Writer P.Proofs.C09_Final.
+Import ListNotations.
+Require Import P.Spec.Events P.Spec.Normal P.Spec.Graph P.Spec.Roundtrip P.Model.Base P.Model.Reader P.Model.Writer P.Model.Walk P.Model.Builder P.Proofs.BodyFacts P.Proofs.C09_Writer P.Proofs.C09_Final P.Proofs.C12_Final P.Proofs.WalkValues P.Proofs.WalkEquiv.
+Strategy opaque [P.Generated.Trees.tree_symbol P.Generated.Trees.tree_organic P.Generated.Trees.tree_configuration
+  P.Generated.Trees.tree_charge P.Generated.Trees.tree_bond P.Generated.Trees.tree_rnum P.Generated.Trees.tree_hcount
+  P.Generated.Trees.tree_isotope P.Generated.Trees.tree_map].
 
 Theorem C14_write_read_write_is_write : forall h, conformant_history h -> Forall okev h ->
   exists text h', wr h = Some text /\ rd text = (VOk, h') /\ wr h' = Some text.
 Proof. exact C09_rewrite_fixed_point. Qed.
 Theorem C14_written_text_ignores_shorthands : forall h, wr (map nkev h) = wr h.
 Proof. exact wr_nk. Qed.
+(* the graph built from a traversal's history is traversed with exactly that history again *)
+Theorem C14_rebuilt_graph_is_a_fixed_point : forall g h, wf g = true -> safe_graph g -> walk g = (WOk, h) ->
+  bld h = BOk (expected_roundtrip g) /\ walk (expected_roundtrip g) = (WOk, h).
+Proof. exact rebuilt_graph_is_fixed_point. Qed.
+(* the whole cycle: the written text, read, built, traversed and written again, is the same text *)
+Theorem C14_written_text_is_a_fixed_point : forall g h, wf g = true -> safe_graph g -> okg g -> g <> [] -> walk g = (WOk, h) ->
+  exists text hr gr h2,
+    wr h = Some text /\ rd text = (VOk, hr) /\ bld hr = BOk gr /\ walk gr = (WOk, h2) /\ wr h2 = Some text.
+Proof. exact written_text_is_fixed_point. Qed.
+Print Assumptions C14_rebuilt_graph_is_a_fixed_point.
+Print Assumptions C14_written_text_is_a_fixed_point.
 Print Assumptions C14_write_read_write_is_write.
 Print Assumptions C14_written_text_ignores_shorthands.
